@@ -286,14 +286,17 @@ class Synth:
         res = fn(**kwargs, **attrs)
         outs = list(res) if isinstance(res, (tuple, list)) else [res]
         outs = [o for o in outs if o is not None][:1]
-        return [self._shaped(o) for o in outs], args
+        return [self._shaped(o, self.module(mid)) for o in outs], args
 
-    def _shaped(self, v):
+    def _shaped(self, v, mod=None):
         from spox import Tensor
 
         t = v.type
         if isinstance(t, Tensor) and t.shape is None:
-            return self.module("v17").shape(v)  # spox.build wants results of known rank
+            # spox.build wants results of known rank; Shape of the SAME opset module where it has one (a v17 Shape next
+            # to a newer node would itself be version-adapted, which spox cannot do for an input of unknown rank)
+            m = mod if mod is not None and hasattr(mod, "shape") else self.module("v17")
+            return m.shape(v)
         return v
 
     def _scan(self, mid, attrs):
@@ -917,3 +920,101 @@ def run_mixed_case(synth: Synth, row, rows_of_ctor, which):
 
 # enumeration values the ONNX specification renamed between opset versions (GridSample-20)
 RENAMED_VALUES = {("GridSample", "mode"): {"bilinear": "linear", "bicubic": "cubic"}}
+
+
+# ------------------------------------------------------------------------ variadic inputs (a caller-owned list of Vars)
+VARIADIC_MUTS = ["append", "setitem", "clear", "insert0", "pop", "reverse", "extend", "delitem", "iadd"]
+
+
+def _variadic_builder(mod, ctor):
+    """-> (make_list(pool) -> list of Vars, call(list) -> outputs, op_type).  pool: f32 (3,3) arguments p0..p3."""
+    import numpy as np
+
+    op = mod
+    two = lambda pool: [pool[0], pool[1]]  # noqa: E731
+    simple = {"max": "Max", "mean": "Mean", "min": "Min", "sum": "Sum"}
+    if ctor in simple:
+        return two, lambda l: [getattr(op, ctor)(l)], simple[ctor]
+    if ctor == "concat":
+        return two, lambda l: [op.concat(l, axis=0)], "Concat"
+    if ctor == "einsum":
+        return two, lambda l: [op.einsum(l, equation="ij,jk->ik")], "Einsum"
+    if ctor == "sequence_construct":
+        return two, lambda l: [op.sequence_length(op.sequence_construct(l))], "SequenceConstruct"
+    if ctor == "feature_vectorizer":
+        import spox.opset.ai.onnx.v17 as op17
+
+        return two, lambda l: [op17.shape(op.feature_vectorizer(l, inputdimensions=[3, 3]))], "FeatureVectorizer"
+    if ctor == "loop":
+        def call(l):
+            return list(op.loop(op.const(np.array(2, np.int64)), None, v_initial=l,
+                                body=lambda i, c, *xs: [op.const(np.array(True))] + [op.add(x, x) for x in xs]))
+        return two, call, "Loop"
+    if ctor == "scan":
+        def call(l):
+            return list(op.scan(l, body=lambda st, x: [op.add(st, x), op.identity(x)], num_scan_inputs=1))
+        return (lambda pool: [pool[4], pool[0]]), call, "Scan"
+    if ctor == "sequence_map":
+        def call(l):
+            sq = op.sequence_construct([l[0], l[0]]) if l else None
+            return list(op.sequence_map(sq, l, body=lambda x, *ys: [op.add(x, ys[0])]))
+        return two, call, "SequenceMap"
+    return None
+
+
+def run_variadic_case(synth: Synth, vrow, mut):
+    """`ctor(<list of Vars>)`, then the caller mutates its list (append / item assignment / clear / ...), then build: the
+    node's inputs in the built model are the Vars the list held at the call (compared with an untouched twin)."""
+    import numpy as np
+
+    import spox
+    from spox import Tensor, argument
+
+    mod = synth.module(vrow["mod"])
+    b = _variadic_builder(mod, vrow["ctor"])
+    if b is None:
+        return ("skip", f"no builder for the variadic constructor {vrow['ctor']}")
+    make, call, op_type = b
+
+    def once(mutate):
+        pool = [argument(Tensor(np.float32, (3, 3))) for _ in range(4)] + [argument(Tensor(np.float32, (3,)))]
+        lst = make(pool)
+        outs = [synth._shaped(o, mod) for o in call(lst)]
+        if mutate:
+            if mut == "append":
+                lst.append(pool[2])
+            elif mut == "setitem":
+                lst[0] = pool[3]
+            elif mut == "clear":
+                lst.clear()
+            elif mut == "insert0":
+                lst.insert(0, pool[2])
+            elif mut == "pop":
+                lst.pop()
+            elif mut == "reverse":
+                lst.reverse()
+            elif mut == "extend":
+                lst.extend([pool[2], pool[3]])
+            elif mut == "delitem":
+                del lst[0]
+            elif mut == "iadd":
+                lst += [pool[3]]
+        mb = spox.build({f"p{i}": a for i, a in enumerate(pool)}, {f"o{i}": o for i, o in enumerate(outs)}).SerializeToString()
+        g = W.graph_parts(W.graph_of_model(mb))
+        node = next((n for n in g["nodes"] if n["op_type"] == op_type), None)
+        return None if node is None else node["inputs"]
+
+    desc = f"{vrow['mod']}.{vrow['ctor']}({vrow['param']}=<list of Vars>), then list.{mut}"
+    try:
+        ref = once(False)
+    except Exception as e:  # noqa: BLE001
+        return ("skip", f"variadic call does not build: {type(e).__name__}: {str(e)[:80]}")
+    if ref is None:
+        return ("skip", f"no {op_type} node in the built model")
+    try:
+        got = once(True)
+    except Exception as e:  # noqa: BLE001
+        return (f"raises:{type(e).__name__}", f"{desc}: build raised {type(e).__name__}: {str(e)[:120]} (without the mutation it builds)")
+    if got != ref:
+        return ("model", f"{desc}: the built {op_type} node has inputs {got}, at the call the list held {ref}")
+    return None
